@@ -1,317 +1,11 @@
 """C11 -- polynomial arithmetic (the 32 operator impls and multiply) in src/polynomial/mod.rs."""
 from vx.unit import Unit
 from vx.rules import COPIED
-from specs_polycommon import cfg, POLY_SPEC, PFILE
-
-SPEC = r'''
-pub open spec fn rmaxi(a: int, b: int) -> int { if a >= b { a } else { b } }
-// res = a + sign*b coefficient-wise, length of the longer operand, tolerance of the left operand
-pub open spec fn is_sum(res: Polynomial, a: Polynomial, b: Polynomial, sign: real) -> bool {
-    res.coefficients@.len() == rmaxi(a.coefficients@.len() as int, b.coefficients@.len() as int)
-    && res.tolerance == a.tolerance
-    && forall|k: int| #![trigger coef(res.coefficients@, k)] coef(res.coefficients@, k) == coef(a.coefficients@, k) + sign * coef(b.coefficients@, k)
-}
-// res = a + d (constant term shifted), everything else unchanged
-pub open spec fn is_shift0(res: Polynomial, a: Polynomial, d: real) -> bool {
-    res.coefficients@.len() == a.coefficients@.len() && res.tolerance == a.tolerance
-    && coef(res.coefficients@, 0) == coef(a.coefficients@, 0) + d
-    && forall|k: int| #![trigger coef(res.coefficients@, k)] k != 0 ==> coef(res.coefficients@, k) == coef(a.coefficients@, k)
-}
-pub open spec fn is_scaled(res: Polynomial, a: Polynomial, s: real) -> bool {
-    res.coefficients@.len() == a.coefficients@.len() && res.tolerance == a.tolerance
-    && forall|k: int| #![trigger res.coefficients@[k]] #![trigger a.coefficients@[k]] 0 <= k < a.coefficients@.len() ==> res.coefficients@[k]@ == a.coefficients@[k]@ * s
-}
-pub open spec fn is_divided(res: Polynomial, a: Polynomial, s: real) -> bool {
-    res.coefficients@.len() == a.coefficients@.len() && res.tolerance == a.tolerance
-    && forall|k: int| #![trigger res.coefficients@[k]] #![trigger a.coefficients@[k]] 0 <= k < a.coefficients@.len() ==> res.coefficients@[k]@ == a.coefficients@[k]@ / s
-}
-pub open spec fn is_negated(res: Polynomial, a: Polynomial) -> bool {
-    res.coefficients@.len() == a.coefficients@.len() && res.tolerance == a.tolerance
-    && forall|k: int| #![trigger res.coefficients@[k]] #![trigger a.coefficients@[k]] 0 <= k < a.coefficients@.len() ==> res.coefficients@[k]@ == -a.coefficients@[k]@
-}
-// coefficient k of the product a*b:  sum_{i=0..k} a_i b_{k-i}
-pub open spec fn conv_upto(a: Polynomial, b: Polynomial, k: int, n: int) -> real
-    decreases n
-{ if n <= 0 { 0real } else { conv_upto(a, b, k, n - 1) + a.c(n - 1) * b.c(k - (n - 1)) } }
-pub open spec fn conv(a: Polynomial, b: Polynomial, k: int) -> real { conv_upto(a, b, k, k + 1) }
-// what multiply() promises on each of its exact code paths (over coefficient sequences)
-pub open spec fn prod_exact(r: Seq<R>, a: Seq<R>, b: Seq<R>) -> bool {
-    if b.len() == 1 { r.len() == a.len() && forall|k: int| #![trigger r[k]] 0 <= k < a.len() ==> r[k]@ == a[k]@ * b[0]@ }
-    else if a.len() == 1 { r.len() == b.len() && forall|k: int| #![trigger r[k]] 0 <= k < b.len() ==> r[k]@ == b[k]@ * a[0]@ }
-    else if b.len() == 2 {
-        r.len() == a.len() + 1 && forall|k: int| #![trigger coef(r, k)] coef(r, k) == coef(a, k - 1) * b[1]@ + coef(a, k) * b[0]@
-    } else if a.len() == 2 {
-        r.len() == b.len() + 1 && forall|k: int| #![trigger coef(r, k)] coef(r, k) == coef(b, k - 1) * a[1]@ + coef(b, k) * a[0]@
-    } else { true }
-}
-pub open spec fn is_product_exact(res: Polynomial, a: Polynomial, b: Polynomial) -> bool {
-    prod_exact(res.coefficients@, a.coefficients@, b.coefficients@)
-}
-pub open spec fn exact_path(a: Polynomial, b: Polynomial) -> bool {
-    a.coefficients@.len() <= 2 || b.coefficients@.len() <= 2
-}
-
-// ---- the FFT path of multiply() is NOT verified: dft / idft are trusted stubs that promise only
-// ---- what purge_leading() guarantees about the shape of the result (DESIGN.md 5 C11)
-pub struct C { pub re: R, pub im: R }
-impl Clone for C { #[verifier::external_body] fn clone(&self) -> (r: C) ensures r == *self { unimplemented!() } }
-impl Copy for C {}
-#[verifier::external_body]
-pub fn vx_pointwise_product(l: &Vec<C>, r: &Vec<C>) -> (p: Vec<C>) { unimplemented!() }
-impl Polynomial {
-    #[verifier::external_body]
-    pub fn dft(&self, size: usize) -> (r: Vec<C>) { unimplemented!() }
-    #[verifier::external_body]
-    pub fn idft(vec: &[C], tol: R) -> (r: Polynomial) ensures r.wf(), r.tolerance == tol { unimplemented!() }
-}
-'''
-
-LEMMAS = r'''
-// ---- the exact code paths of multiply() compute the convolution (coefficient algebra of the product)
-pub proof fn lemma_conv_const(a: Polynomial, b: Polynomial, k: int, n: int)
-    requires b.coefficients@.len() == 1, 0 <= n, 0 <= k
-    ensures conv_upto(a, b, k, n) == if k < n { a.c(k) * b.c(0) } else { 0real }
-    decreases n
-{
-    if n > 0 {
-        lemma_conv_const(a, b, k, n - 1);
-        if k != n - 1 {
-            assert(b.c(k - (n - 1)) == 0real);
-            assert(a.c(n - 1) * 0real == 0real) by(nonlinear_arith);
-        }
-    }
-}
-pub proof fn lemma_conv_linear(a: Polynomial, b: Polynomial, k: int, n: int)
-    requires b.coefficients@.len() == 2, 0 <= n, 0 <= k
-    ensures conv_upto(a, b, k, n) == (if k < n { a.c(k) * b.c(0) } else { 0real }) + (if 0 <= k - 1 < n { a.c(k - 1) * b.c(1) } else { 0real })
-    decreases n
-{
-    if n > 0 {
-        lemma_conv_linear(a, b, k, n - 1);
-        if k != n - 1 && k - 1 != n - 1 {
-            assert(b.c(k - (n - 1)) == 0real);
-            assert(a.c(n - 1) * 0real == 0real) by(nonlinear_arith);
-        }
-    }
-}
-// multiply(a, b) with deg b <= 1 returns the exact convolution
-pub proof fn lemma_exact_paths_are_convolution(res: Polynomial, a: Polynomial, b: Polynomial, k: int)
-    requires is_product_exact(res, a, b), a.wf(), 1 <= b.coefficients@.len() <= 2, 0 <= k,
-    ensures res.c(k) == conv(a, b, k)
-{
-    if b.coefficients@.len() == 1 {
-        lemma_conv_const(a, b, k, k + 1);
-        if k >= a.coefficients@.len() { assert(0real * b.c(0) == 0real) by(nonlinear_arith); }
-    } else {
-        lemma_conv_linear(a, b, k, k + 1);
-        if a.coefficients@.len() == 1 {
-            // the code takes the scalar path on the left operand
-            assert(b.c(k) * a.c(0) == a.c(0) * b.c(k)) by(nonlinear_arith);
-            if k == 0 { assert(a.c(-1) * b.c(1) == 0real) by(nonlinear_arith) requires a.c(-1) == 0real; }
-            if k >= 1 { assert(a.c(k) * b.c(0) == 0real) by(nonlinear_arith) requires a.c(k) == 0real; }
-            if k >= 2 { assert(a.c(k - 1) * b.c(1) == 0real) by(nonlinear_arith) requires a.c(k - 1) == 0real; }
-            if k >= 2 { assert(res.c(k) == 0real); }
-        } else {
-            assert(coef(res.coefficients@, k) == coef(a.coefficients@, k - 1) * b.coefficients@[1]@ + coef(a.coefficients@, k) * b.coefficients@[0]@);
-            if k == 0 { assert(a.c(-1) * b.c(1) == 0real) by(nonlinear_arith) requires a.c(-1) == 0real; }
-        }
-    }
-}
-'''
-
-OPS = {"Add": ("add", "+", "1real", ""), "Sub": ("sub", "-", "(-1real)", "-")}
-
-
-def spec_impl(trait, rhs, selfty, req, assign=False, unary=False):
-    lower = {"Add": "add", "Sub": "sub", "Mul": "mul", "Div": "div", "Neg": "neg"}[trait]
-    if unary:
-        return (f"impl NegSpecImpl for {selfty} {{\n    open spec fn obeys_neg_spec() -> bool {{ false }}\n"
-                f"    open spec fn neg_req(self) -> bool {{ {req} }}\n    open spec fn neg_spec(self) -> Polynomial {{ arbitrary() }}\n}}\n")
-    if assign:
-        return (f"impl {trait}AssignSpecImpl<{rhs}> for {selfty} {{\n    open spec fn obeys_{lower}_assign_spec() -> bool {{ false }}\n"
-                f"    open spec fn {lower}_assign_req(&self, rhs: {rhs}) -> bool {{ {req} }}\n"
-                f"    open spec fn {lower}_assign_spec(&self, rhs: {rhs}) -> &Self {{ arbitrary() }}\n}}\n")
-    return (f"impl {trait}SpecImpl<{rhs}> for {selfty} {{\n    open spec fn obeys_{lower}_spec() -> bool {{ false }}\n"
-            f"    open spec fn {lower}_req(self, rhs: {rhs}) -> bool {{ {req} }}\n"
-            f"    open spec fn {lower}_spec(self, rhs: {rhs}) -> Polynomial {{ arbitrary() }}\n}}\n")
-
-
-def vty(t):
-    """verus type of a repo type"""
-    return t.replace("Polynomial<N>", "Polynomial").replace("N", "R") if t != "N" else "R"
-
-
-def deref(name, ty):
-    return f"*{name}" if ty.startswith("&") else name
-
-
-def mutating_pp(u, trait, rhs_t, assign):
-    """Polynomial (op)= Polynomial on an owned / &mut self: iter_mut().take() loop then push loop"""
-    fn, op, sign, neg = OPS[trait]
-    tr = trait + ("Assign" if assign else "")
-    u.spec(spec_impl(trait, vty(rhs_t), "Polynomial", "self.wf() && rhs.wf() && self.coefficients@.len() + rhs.coefficients@.len() < usize::MAX", assign=assign))
-    im = u.impl(PFILE, f"ops::{tr}<{rhs_t}> for Polynomial<N>")
-    f = im.fn(fn + ("_assign" if assign else ""))
-    OLD, CUR = ("old(self)", "self") if assign else ("self", "self_")
-    r = deref("rhs", rhs_t)
-    if assign:
-        f.ens(f"is_sum(*final(self), *old(self), {r}, {sign})")
-    else:
-        f.ens(f"is_sum(res, self, {r}, {sign})")
-    f.loop(1, iter="it", invariant=[
-        "ind == it.index@",
-        f"forall|k: int| #![trigger it.history@[k]] #![trigger {OLD}.coefficients@[k]] 0 <= k < it.index@ ==> "
-        f"(*final(it.history@[k]))@ == {OLD}.coefficients@[k]@ {op} rhs.coefficients@[k]@",
-    ])
-    f.loop(2, iter="it2", invariant=[
-        f"{CUR}.coefficients@.len() == {OLD}.coefficients@.len() + it2.index@",
-        f"{CUR}.tolerance == {OLD}.tolerance",
-        f"forall|k: int| 0 <= k < min_order ==> {CUR}.coefficients@[k]@ == {OLD}.coefficients@[k]@ {op} rhs.coefficients@[k]@",
-        f"forall|k: int| min_order <= k < {OLD}.coefficients@.len() ==> {CUR}.coefficients@[k] == {OLD}.coefficients@[k]",
-        f"it2.index@ > 0 ==> min_order == {OLD}.coefficients@.len()",
-        f"forall|k: int| {OLD}.coefficients@.len() <= k < {OLD}.coefficients@.len() + it2.index@ ==> {CUR}.coefficients@[k]@ == {neg}rhs.coefficients@[k]@",
-        "forall|k: int| 0 <= k < it2.history@.len() ==> *it2.history@[k] == rhs.coefficients@[min_order + k]",
-    ])
-    return f
-
-
-def building_pp(u, trait, rhs_t):
-    """&Polynomial op Polynomial: three push loops into a fresh vector"""
-    fn, op, sign, neg = OPS[trait]
-    u.spec(spec_impl(trait, vty(rhs_t), "&Polynomial", "self.wf() && rhs.wf() && self.coefficients@.len() + rhs.coefficients@.len() < usize::MAX"))
-    im = u.impl(PFILE, f"ops::{trait}<{rhs_t}> for &Polynomial<N>")
-    f = im.fn(fn)
-    f.opt(subst=[("let mut coefficients =", "let mut coefficients: Vec<R> =", "R10-type-annotation")])
-    r = deref("rhs", rhs_t)
-    f.ens(f"is_sum(res, *self, {r}, {sign})")
-    head = [f"forall|k: int| 0 <= k < min_order ==> coefficients@[k]@ == self.coefficients@[k]@ {op} rhs.coefficients@[k]@"]
-    f.loop(1, iter="it", invariant=[
-        "ind == it.index@", "coefficients@.len() == it.index@",
-        f"forall|k: int| 0 <= k < it.index@ ==> coefficients@[k]@ == self.coefficients@[k]@ {op} rhs.coefficients@[k]@",
-        "forall|k: int| 0 <= k < it.history@.len() ==> *it.history@[k] == self.coefficients@[k]",
-    ])
-    f.loop(2, iter="it2", invariant=head + [
-        "coefficients@.len() == min_order + it2.index@",
-        "forall|k: int| min_order <= k < min_order + it2.index@ ==> coefficients@[k] == self.coefficients@[k]",
-        "forall|k: int| 0 <= k < it2.history@.len() ==> *it2.history@[k] == self.coefficients@[min_order + k]",
-    ])
-    f.loop(3, iter="it3", invariant=head + [
-        "coefficients@.len() == self.coefficients@.len() + it3.index@",
-        "forall|k: int| min_order <= k < self.coefficients@.len() ==> coefficients@[k] == self.coefficients@[k]",
-        "it3.index@ > 0 ==> min_order == self.coefficients@.len()",
-        f"forall|k: int| self.coefficients@.len() <= k < self.coefficients@.len() + it3.index@ ==> coefficients@[k]@ == {neg}rhs.coefficients@[k]@",
-        "forall|k: int| 0 <= k < it3.history@.len() ==> *it3.history@[k] == rhs.coefficients@[min_order + k]",
-    ])
-    return f
-
-
-def scalar_shift(u, trait):
-    fn, op, sign, neg = OPS[trait]
-    d = f"{neg}rhs@" if neg else "rhs@"
-    u.spec(spec_impl(trait, "R", "Polynomial", "self.wf()"))
-    f = u.impl(PFILE, f"ops::{trait}<N> for Polynomial<N>").fn(fn)
-    f.ens(f"is_shift0(res, self, {d})")
-    u.spec(spec_impl(trait, "R", "&Polynomial", "self.wf()"))
-    f = u.impl(PFILE, f"ops::{trait}<N> for &Polynomial<N>").fn(fn)
-    f.ens(f"is_shift0(res, *self, {d})")
-    u.spec(spec_impl(trait, "R", "Polynomial", "self.wf()", assign=True))
-    f = u.impl(PFILE, f"ops::{trait}Assign<N> for Polynomial<N>").fn(fn + "_assign")
-    f.ens(f"is_shift0(*final(self), *old(self), {d})")
-
-
-def scalar_scale(u):
-    MUT_INV = lambda OLD, o: [
-        f"forall|k: int| #![trigger it.history@[k]] #![trigger {OLD}.coefficients@[k]] 0 <= k < it.index@ ==> "
-        f"(*final(it.history@[k]))@ == {OLD}.coefficients@[k]@ {o} rhs@"]
-    # Mul<N>
-    u.spec(spec_impl("Mul", "R", "Polynomial", "true"))
-    f = u.impl(PFILE, "ops::Mul<N> for Polynomial<N>").fn("mul")
-    f.ens("is_scaled(res, self, rhs@)")
-    f.loop(1, iter="it", invariant=MUT_INV("self", "*"))
-    u.spec(spec_impl("Mul", "R", "&Polynomial", "true"))
-    f = u.impl(PFILE, "ops::Mul<N> for &Polynomial<N>").fn("mul")
-    f.ens("is_scaled(res, *self, rhs@)")
-    f.opt(subst=[("let mut coefficients =", "let mut coefficients: Vec<R> =", "R10-type-annotation")])
-    f.loop(1, iter="it", invariant=[
-        "coefficients@.len() == it.index@",
-        "forall|k: int| 0 <= k < it.index@ ==> coefficients@[k]@ == self.coefficients@[k]@ * rhs@",
-        "forall|k: int| 0 <= k < it.history@.len() ==> *it.history@[k] == self.coefficients@[k]"])
-    u.spec(spec_impl("Mul", "R", "Polynomial", "true", assign=True))
-    f = u.impl(PFILE, "ops::MulAssign<N> for Polynomial<N>").fn("mul_assign")
-    f.ens("is_scaled(*final(self), *old(self), rhs@)")
-    f.loop(1, iter="it", invariant=MUT_INV("old(self)", "*"))
-    # Div<N>: dividing by zero is allowed by the code (inf/NaN in floats); the contract is for rhs != 0
-    u.spec(spec_impl("Div", "R", "Polynomial", "rhs@ != 0real"))
-    f = u.impl(PFILE, "ops::Div<N> for Polynomial<N>").fn("div")
-    f.ens("is_divided(res, self, rhs@)")
-    f.loop(1, iter="it", invariant=MUT_INV("self", "/"))
-    u.spec(spec_impl("Div", "R", "&Polynomial", "rhs@ != 0real"))
-    f = u.impl(PFILE, "ops::Div<N> for &Polynomial<N>").fn("div")
-    f.ens("is_divided(res, *self, rhs@)")
-    f.loop(1, iter="it", invariant=[
-        f"forall|k: int| #![trigger it.history@[k]] #![trigger self.coefficients@[k]] 0 <= k < it.index@ ==> "
-        f"(*final(it.history@[k]))@ == self.coefficients@[k]@ / rhs@"])
-    u.spec(spec_impl("Div", "R", "Polynomial", "rhs@ != 0real", assign=True))
-    f = u.impl(PFILE, "ops::DivAssign<N> for Polynomial<N>").fn("div_assign")
-    f.ens("is_divided(*final(self), *old(self), rhs@)")
-    f.loop(1, iter="it", invariant=MUT_INV("old(self)", "/"))
-    # Neg
-    u.spec(spec_impl("Neg", None, "Polynomial", "true", unary=True))
-    f = u.impl(PFILE, "ops::Neg for Polynomial<N>").fn("neg")
-    f.ens("is_negated(res, self)")
-    f.loop(1, iter="it", invariant=[
-        "forall|k: int| #![trigger it.history@[k]] #![trigger self.coefficients@[k]] 0 <= k < it.index@ ==> "
-        "(*final(it.history@[k]))@ == -self.coefficients@[k]@"])
-    u.spec(spec_impl("Neg", None, "&Polynomial", "true", unary=True))
-    f = u.impl(PFILE, "ops::Neg for &Polynomial<N>").fn("neg")
-    f.ens("is_negated(res, *self)")
-    # closure + collect inside (or called from) a trait-impl method loses its specification in this Verus
-    # build: the body is hoisted into a free fn (R15) that is proved in the sibling unit `poly_neg_ref`;
-    # in this unit the hoisted fn is visible through its contract only
-    f.opt(subst=[("|c|", "|c: &R|", "R7-closure-param-type")], hoist="assumed-here", proved_in="poly_neg_ref")
-    f.closure(1, ret="y: R", ensures=["y@ == -(*c)@"])
-    f.trusted_here = True
-
-
-def product(u):
-    f = u.fn(PFILE, "multiply")
-    f.req("lhs.wf()", "rhs.wf()", "lhs.coefficients@.len() + rhs.coefficients@.len() < usize::MAX / 2")
-    # (which operand's tolerance the result carries differs between the code paths and is not part of the property)
-    f.ens("res.wf()", "is_product_exact(res, *lhs, *rhs)")
-    # the FFT tail: `.iter().zip(..).map(|(l_p, r_p)| *l_p * r_p).collect()` on the unverified complex type is
-    # routed to a trusted stub; nothing is claimed about that path
-    f.opt(subst=[("left_points . iter ( ) . zip ( right_points . iter ( ) ) . map ( | ( l_p , r_p ) | * l_p * r_p ) . collect ( )",
-                  "vx_pointwise_product(&left_points, &right_points)", "R14-fft-path-stub")])
-    req = "self.wf() && rhs.wf() && self.coefficients@.len() + rhs.coefficients@.len() < usize::MAX / 2"
-    for rhs_t, self_t in (("Polynomial<N>", "Polynomial<N>"), ("&Polynomial<N>", "Polynomial<N>"),
-                          ("Polynomial<N>", "&Polynomial<N>"), ("&Polynomial<N>", "&Polynomial<N>")):
-        u.spec(spec_impl("Mul", vty(rhs_t), vty(self_t), req))
-        g = u.impl(PFILE, f"ops::Mul<{rhs_t}> for {self_t}").fn("mul")
-        a, b = deref("self", self_t), deref("rhs", rhs_t)
-        g.ens("res.wf()", f"is_product_exact(res, {a}, {b})")
-    for rhs_t in ("Polynomial<N>", "&Polynomial<N>"):
-        u.spec(spec_impl("Mul", vty(rhs_t), "Polynomial", req, assign=True))
-        g = u.impl(PFILE, f"ops::MulAssign<{rhs_t}> for Polynomial<N>").fn("mul_assign")
-        b = deref("rhs", rhs_t)
-        g.ens("final(self).wf()", "final(self).tolerance == old(self).tolerance", f"is_product_exact(*final(self), *old(self), {b})")
-
+from specs_polycommon import *
 
 def units(ctx):
     u = Unit("C11", "poly_ops", preludes=("real", "stdx"), cfg=cfg())
-    u.item(PFILE, "struct", "Polynomial")
-    u.spec(POLY_SPEC)
-    u.spec(SPEC)
-    u.spec(LEMMAS)
-    for trait in ("Add", "Sub"):
-        scalar_shift(u, trait)
-        mutating_pp(u, trait, "Polynomial<N>", False)
-        mutating_pp(u, trait, "&Polynomial<N>", False)
-        building_pp(u, trait, "Polynomial<N>")
-        building_pp(u, trait, "&Polynomial<N>")
-        mutating_pp(u, trait, "Polynomial<N>", True)
-        mutating_pp(u, trait, "&Polynomial<N>", True)
-    scalar_scale(u)
-    product(u)
+    all_ops(u)
     u.timeout = 1200
     # sibling unit: the hoisted body of `Neg for &Polynomial`, proved against the same contract text
     u2 = Unit("C11", "poly_neg_ref", preludes=("real", "stdx"), cfg=cfg())
